@@ -33,6 +33,22 @@ void run_ops(FreeWorld *w, int tid, const std::vector<Op> *ops, const std::vecto
 {
     int depth = 0;
     size_t pi = 0;
+    std::vector<int> styles;
+    std::vector<igris::syslock_guard *> guards;
+    auto leave = [&]() {
+        int style = styles.empty() ? 0 : styles.back();
+        if (!styles.empty())
+            styles.pop_back();
+        if (style == 2 && !guards.empty())
+        {
+            delete guards.back();
+            guards.pop_back();
+        }
+        else if (style == 1)
+            igris::syslock().unlock();
+        else
+            system_unlock();
+    };
     for (const Op &o : *ops)
     {
         uint8_t pause = pi < pauses->size() ? (*pauses)[pi++] : 0;
@@ -43,7 +59,13 @@ void run_ops(FreeWorld *w, int tid, const std::vector<Op> *ops, const std::vecto
         switch (o.k)
         {
         case O_LOCK:
-            system_lock();
+            if (o.prio == 2)
+                guards.push_back(new igris::syslock_guard);
+            else if (o.prio == 1)
+                igris::syslock().lock();
+            else
+                system_lock();
+            styles.push_back(o.prio);
             if (w->cs_owner != -1 && w->cs_owner != tid)
                 w->excl_violation = true;
             w->cs_owner = tid;
@@ -55,7 +77,7 @@ void run_ops(FreeWorld *w, int tid, const std::vector<Op> *ops, const std::vecto
                 break;
             if (--depth == 0)
                 w->cs_owner = -1;
-            system_unlock();
+            leave();
             break;
         case O_SAVE_RESTORE:
         {
@@ -99,7 +121,7 @@ void run_ops(FreeWorld *w, int tid, const std::vector<Op> *ops, const std::vecto
     {
         if (depth == 0)
             w->cs_owner = -1;
-        system_unlock();
+        leave();
     }
     w->finished++;
 }
